@@ -10,6 +10,12 @@ import PdModel.Proto
       outcome of each update is given by the caller (Z = zlib.error, D = UnicodeError, T = decoded text)
                                         → `(<b:payload>:<ok|Exc> | q=<answer>)… | <links> | <log>`
 * `header <u:project> <u:version>`     → `b:<hex>` (the bytes of `_generateHeader`)
+* `maxage <u:s>`                        → `ok <u:unit> <amount>` | `InvalidMaxAge`
+* `preparecache <clear> <enable> <rmtreeOk> <u:maxAge>` (0/1 flags) → `plain` | `caching <seconds>` | `OSError` | `InvalidMaxAge`
+* `fetch (F <u:url> <C:b:hex|E|B> <Z|D|T:u:text>)*` → `<ok|BaseException> | <links> | <log>`
+* `xref <N|u:objForFullName> <u:expandName> <N|u:context result> <u:identifier> <k=b=l>*` → `internal u:… | external u:… | unresolved`
+* `linkto <N|u:resolveName> <u:expandName> <u:identifier> <k=b=l>*`  → same
+* `role <DOCUMENTABLEKIND>`              → `u:py:<type>`
 * `gen <forest>`                        → `ok <u:content> | <unknown-type names>` | `AssertionError`
 * `roundtrip <u:base> <forest>`         → content, links of parse(content), log, visible objects, getLink per object
   forest: `( <u:name> <m|p|c|f|M|a|o> <h|v> child* )*`
@@ -70,6 +76,38 @@ def parseForest : Nat → List String → Option (List Tree)
 
 def showErr : PyErr → String
   | .valueError => "ValueError" | .indexError => "IndexError" | .assertionError => "AssertionError"
+  | .keyError => "KeyError" | .typeError => "TypeError" | .osError => "OSError"
+  | .invalidMaxAge => "InvalidMaxAge" | .lookupError => "LookupError" | .baseException => "BaseException"
+
+def parseOptStr (tok : String) : Option (Option Str) :=
+  if tok == "N" then some none else (Proto.decodeStr tok).map some
+
+/-- `k=b=l` -/
+def parseLinkTok (tok : String) : Option (Str × Link) :=
+  match tok.splitOn "=" with
+  | [k, b, l] => do
+    let k ← Proto.decodeStr k
+    let b ← Proto.decodeStr b
+    let l ← Proto.decodeStr l
+    some (k, (b, l))
+  | _ => none
+
+def parseBool (tok : String) : Option Bool :=
+  if tok == "1" then some true else if tok == "0" then some false else none
+
+def showTarget : XrefTarget → String
+  | .internal o => "internal " ++ Proto.encodeStr o
+  | .external u => "external " ++ Proto.encodeStr u
+  | .unresolved => "unresolved"
+
+def parseDocKind : String → Option DocKind
+  | "PACKAGE" => some .package | "MODULE" => some .module | "CLASS" => some .klass
+  | "INTERFACE" => some .interface | "EXCEPTION" => some .exception | "CLASS_METHOD" => some .classMethod
+  | "STATIC_METHOD" => some .staticMethod | "METHOD" => some .method | "FUNCTION" => some .function
+  | "CONSTANT" => some .constant | "TYPE_VARIABLE" => some .typeVariable | "TYPE_ALIAS" => some .typeAlias
+  | "CLASS_VARIABLE" => some .classVariable | "SCHEMA_FIELD" => some .schemaField | "ATTRIBUTE" => some .attribute
+  | "INSTANCE_VARIABLE" => some .instanceVariable | "PROPERTY" => some .property | "VARIABLE" => some .variable
+  | _ => none
 
 def showLinks (d : Dict) : String :=
   if d.isEmpty then "-" else
@@ -130,6 +168,20 @@ def session (toks : List String) : Option String := do
     | .inr ans => "q=" ++ showOpt ans
   some ((if outs.isEmpty then "-" else " ".intercalate outs) ++ " | " ++ showLinks st.links ++ " | " ++ showLog st.log)
 
+def parseFetches : Nat → List String → Option (List Fetch)
+  | 0, _ => none
+  | _, [] => some []
+  | f+1, "F" :: u :: sr :: z :: rest => do
+    let url ← Proto.decodeStr u
+    let session ← (if sr == "E" then some SessionResult.exception else if sr == "B" then some .baseException
+      else if sr.startsWith "C:" then (decodeBytes (sr.drop 2).toString).map .content else none)
+    let zr ← parseZ z
+    let unzip : Bytes → Option Bytes := fun _ => match zr with | .zerr => none | _ => some []
+    let decode : Bytes → Option Str := fun _ => match zr with | .text t => some t | _ => none
+    let more ← parseFetches f rest
+    some (⟨url, session, unzip, decode⟩ :: more)
+  | _, _ => none
+
 def showObjs (os : List Obj) : String :=
   if os.isEmpty then "-" else
   " ".intercalate (os.map fun o => Proto.encodeStr o.full ++ "=" ++ Proto.encodeStr o.url)
@@ -162,6 +214,40 @@ def handle (args : List String) : String :=
     | _, _ => "bad-op"
   | "session" :: toks =>
     (session toks).getD "bad-op"
+  | ["maxage", a] =>
+    match Proto.decodeStr a with
+    | none => "bad-op"
+    | some ma =>
+      match parseMaxAge pyInt ma with
+      | .ok (u, n) => "ok " ++ Proto.encodeStr u ++ " " ++ toString n
+      | .raised e => showErr e
+  | ["preparecache", c, e, r, a] =>
+    match parseBool c, parseBool e, parseBool r, Proto.decodeStr a with
+    | some clear, some enable, some rmOk, some ma =>
+      match prepareCache pyInt clear enable rmOk ma with
+      | .ok .plain => "plain"
+      | .ok (.caching u n) => "caching " ++ toString (n * unitSeconds u)
+      | .raised err => showErr err
+    | _, _, _, _ => "bad-op"
+  | "fetch" :: toks =>
+    match parseFetches (toks.length + 1) toks with
+    | none => "bad-op"
+    | some fs =>
+      let (st, r) := fetchAll pyInt ⟨[], []⟩ fs
+      (match r with | .ok _ => "ok" | .raised e => showErr e) ++ " | " ++ showLinks st.links ++ " | " ++ showLog st.log
+  | "xref" :: o :: f :: c :: i :: links =>
+    match parseOptStr o, Proto.decodeStr f, parseOptStr c, Proto.decodeStr i, links.mapM parseLinkTok with
+    | some objFor, some fullID, some context, some ident, some d =>
+      showTarget (resolveXref (fun _ => objFor) (fun _ => fullID) d context ident)
+    | _, _, _, _, _ => "bad-op"
+  | "linkto" :: r :: f :: i :: links =>
+    match parseOptStr r, Proto.decodeStr f, Proto.decodeStr i, links.mapM parseLinkTok with
+    | some resolved, some fullID, some ident, some d => showTarget (linkTo resolved (fun _ => fullID) d ident)
+    | _, _, _, _ => "bad-op"
+  | ["role", k] =>
+    match parseDocKind k with
+    | some dk => Proto.encodeStr dk.role
+    | none => "bad-op"
   | "gen" :: toks =>
     match parseForest (toks.length + 1) toks with
     | none => "bad-op"
